@@ -190,6 +190,21 @@ def diagnostics(rep):
         kind, name, mk = rng.choice(FAULTS_ANY + ([] if inobj else FAULTS_NOT_IN_OBJ))
         srcs.append(G.to_jsonnet(replace(p, list(path), mk(get(p, path))), rng, 0.0, rng.random() < 0.5))
         srcs.append(mutate_text(rng, srcs[-2]))
+    # multi-line spans (primary error span and stack-trace entries) that begin on a line whose number has fewer digits
+    # than the line they end on (9->10, 99->100, 999->1000), and their neighbours
+    directed = []
+    for L in (1, 8, 9, 10, 98, 99, 100, 999):
+        pad = "\n" * (L - 1)
+        for k in (1, 2, 3):
+            mid = "\n" * k
+            directed.append(pad + "[1," + mid + "2] + {}")
+            directed.append(pad + "local f(x) = error \"boom\"; [f(" + mid + "1" + mid + ")]")
+            directed.append(pad + "{ a: (error" + mid + "\"in field\") }")
+            directed.append(pad + "local o = {" + mid + "assert false : \"no\"," + mid + "}; o")
+            directed.append(pad + "std.length(" + mid + "1" + mid + ")")
+            directed.append(pad + "\"abc" + mid + "def")          # unterminated string over several lines
+            directed.append(pad + "/* comment" + mid + "never closed")
+    srcs += directed
     lib = '{x: error "in library", y: 1}'
     lines = ["diag %s max_stack=60 file:%s=%s" % (vlib.hx(s), vlib.hx("lib.libsonnet"), vlib.hx(lib)) for s in srcs]
     outs = vlib.impl(lines)
@@ -222,7 +237,9 @@ def diagnostics(rep):
         with open(os.path.join(tmp, "lib.libsonnet"), "w") as f:
             f.write(lib)
         rng.shuffle(failing)
-        sample = failing[: (120 if quick else 2500)]
+        dset = set(directed)
+        must = [f for f in failing if f[0] in dset]
+        sample = must + [f for f in failing if f[0] not in dset][: (120 if quick else 2500)]
         for i, (s, w, spans) in enumerate(sample):
             path = os.path.join(tmp, "p%d.jsonnet" % (i % 8))
             with open(path, "wb") as f:
